@@ -182,4 +182,113 @@ theorem kyFan_min {A U : Matrix n n K} {mu : n → K} (hU : IsFullEigSystem A U 
   simp only [Matrix.mul_neg, Matrix.neg_mul, trace_neg, Finset.sum_neg_distrib] at this
   linarith
 
+/-! ### Ky Fan from the variational top-`d` property (no full eigensystem required) -/
+
+omit [LinearOrder K] [IsStrictOrderedRing K] [DecidableEq n] [Fintype d] [DecidableEq d] in
+theorem dot_mulVec_eq {m : Type*} [Fintype m] (A : Matrix n m K) (v : n → K) (w : m → K) :
+    v ⬝ᵥ (A *ᵥ w) = (Aᵀ *ᵥ v) ⬝ᵥ w := by
+  rw [dotProduct_mulVec, ← mulVec_transpose]
+
+omit [LinearOrder K] [IsStrictOrderedRing K] [DecidableEq n] in
+/-- splitting a vector along an invariant orthonormal block `V` of a symmetric `A`:
+    with `c = Vᵀ z`, `z' = z − V c`:  `Vᵀ z' = 0`,  `zᵀ A z = Σ_j lam j · c j² + z'ᵀ A z'`,  `‖z'‖² = ‖z‖² − ‖c‖²` -/
+theorem quad_split {A : Matrix n n K} (hA : Aᵀ = A) {V : Matrix n d K} {lam : d → K} (h : IsEigSystem A V lam)
+    (z : n → K) :
+    Vᵀ *ᵥ (z - V *ᵥ (Vᵀ *ᵥ z)) = 0 ∧
+    z ⬝ᵥ (A *ᵥ z) = ∑ j, lam j * ((Vᵀ *ᵥ z) j * (Vᵀ *ᵥ z) j)
+        + (z - V *ᵥ (Vᵀ *ᵥ z)) ⬝ᵥ (A *ᵥ (z - V *ᵥ (Vᵀ *ᵥ z))) ∧
+    (z - V *ᵥ (Vᵀ *ᵥ z)) ⬝ᵥ (z - V *ᵥ (Vᵀ *ᵥ z)) = z ⬝ᵥ z - (Vᵀ *ᵥ z) ⬝ᵥ (Vᵀ *ᵥ z) := by
+  set c := Vᵀ *ᵥ z with hc
+  set z' := z - V *ᵥ c with hz'
+  have hperp : Vᵀ *ᵥ z' = 0 := by
+    rw [hz', mulVec_sub, mulVec_mulVec, h.ortho, one_mulVec, ← hc, sub_self]
+  have hz : z = V *ᵥ c + z' := by rw [hz']; abel
+  -- Vᵀ A = diag lam Vᵀ
+  have hVA : Vᵀ * A = diagonal lam * Vᵀ := by
+    have := congrArg transpose h.eig
+    rwa [transpose_mul, transpose_mul, hA, diagonal_transpose] at this
+  have hAV : A *ᵥ (V *ᵥ c) = V *ᵥ (diagonal lam *ᵥ c) := by
+    rw [mulVec_mulVec, h.eig, ← mulVec_mulVec]
+  have e1 : (V *ᵥ c) ⬝ᵥ (V *ᵥ (diagonal lam *ᵥ c)) = ∑ j, lam j * (c j * c j) := by
+    rw [dot_mulVec_eq, mulVec_mulVec, h.ortho, one_mulVec]
+    simp only [dotProduct, mulVec_diagonal]
+    exact Finset.sum_congr rfl fun j _ => by ring
+  have e2 : z' ⬝ᵥ (V *ᵥ (diagonal lam *ᵥ c)) = 0 := by
+    rw [dot_mulVec_eq, hperp, zero_dotProduct]
+  have e3 : (V *ᵥ c) ⬝ᵥ (A *ᵥ z') = 0 := by
+    rw [dot_mulVec_eq, hA, hAV, dotProduct_comm, e2]
+  refine ⟨hperp, ?_, ?_⟩
+  · conv_lhs => rw [hz]
+    rw [mulVec_add, add_dotProduct, dotProduct_add, dotProduct_add, hAV, e1, e2, e3]
+    ring
+  · have h1 : z ⬝ᵥ (V *ᵥ c) = c ⬝ᵥ c := by rw [dot_mulVec_eq]
+    have h2 : (V *ᵥ c) ⬝ᵥ (V *ᵥ c) = c ⬝ᵥ c := by
+      rw [dot_mulVec_eq, mulVec_mulVec, h.ortho, one_mulVec]
+    rw [hz', sub_dotProduct, dotProduct_sub, dotProduct_sub, dotProduct_comm (V *ᵥ c) z, h1, h2]
+    ring
+
+omit [LinearOrder K] [IsStrictOrderedRing K] [DecidableEq n] [DecidableEq d] in
+/-- `tr (Zᵀ A Z) = Σ_k z_kᵀ A z_k` over the columns of `Z` -/
+theorem trace_conj_eq_sum (A : Matrix n n K) (Z : Matrix n d K) :
+    trace (Zᵀ * A * Z) = ∑ k, (fun i => Z i k) ⬝ᵥ (A *ᵥ fun i => Z i k) := by
+  simp only [trace, diag_apply, Matrix.mul_apply, transpose_apply, dotProduct, mulVec, Finset.sum_mul, Finset.mul_sum]
+  refine Finset.sum_congr rfl fun k _ => ?_
+  rw [Finset.sum_comm]
+  exact Finset.sum_congr rfl fun i _ => Finset.sum_congr rfl fun j _ => by ring
+
+omit [DecidableEq n] in
+/-- **Ky Fan from the variational top-`d` property**: if `(V, lam)` is a top-`d` eigensystem of a symmetric `A`, no block
+    `Z` with as many orthonormal columns captures more: `tr (Zᵀ A Z) ≤ Σ_j lam j` — over any ordered field, without
+    assuming that `A` has a full eigensystem in `K`. -/
+theorem IsTopEig.kyFan {A : Matrix n n K} (hA : Aᵀ = A) {V : Matrix n d K} {lam : d → K} (h : IsTopEig A V lam)
+    (Z : Matrix n d K) (hZ : Zᵀ * Z = 1) : trace (Zᵀ * A * Z) ≤ ∑ j, lam j := by
+  classical
+  rw [trace_conj_eq_sum]
+  rcases isEmpty_or_nonempty d with hd | hd
+  · simp
+  obtain ⟨j0, -, hj0⟩ := Finset.exists_min_image (Finset.univ : Finset d) lam Finset.univ_nonempty
+  -- coefficients of the columns of Z along V
+  set c : d → d → K := fun k j => (Vᵀ *ᵥ fun i => Z i k) j with hc
+  set m : d → K := fun j => ∑ k, c k j * c k j with hm
+  have hcol : ∀ k, (fun i => Z i k) ⬝ᵥ (fun i => Z i k) = 1 := by
+    intro k
+    have := congrFun (congrFun hZ k) k
+    simpa [Matrix.mul_apply, dotProduct] using this
+  have hbound : ∀ k, (fun i => Z i k) ⬝ᵥ (A *ᵥ fun i => Z i k) ≤
+      ∑ j, lam j * (c k j * c k j) + lam j0 * (1 - ∑ j, c k j * c k j) := by
+    intro k
+    obtain ⟨hperp, hquad, hnorm⟩ := quad_split hA h.toIsEigSystem (fun i => Z i k)
+    rw [hquad]
+    have := h.top _ hperp j0
+    rw [hnorm, hcol k] at this
+    have e : (Vᵀ *ᵥ fun i => Z i k) ⬝ᵥ (Vᵀ *ᵥ fun i => Z i k) = ∑ j, c k j * c k j := by
+      simp [dotProduct, hc]
+    rw [e] at this
+    simp only [hc] at this ⊢
+    linarith
+  have hm1 : ∀ j, m j ≤ 1 := by
+    intro j
+    have hb := bessel Z hZ (fun i => V i j)
+    have hv : (fun i => V i j) ⬝ᵥ (fun i => V i j) = 1 := by
+      have := congrFun (congrFun h.ortho j) j
+      simpa [Matrix.mul_apply, dotProduct] using this
+    rw [hv] at hb
+    refine le_trans (le_of_eq ?_) hb
+    simp only [hm, hc, dotProduct, mulVec, transpose_apply]
+    refine Finset.sum_congr rfl fun k _ => ?_
+    congr 1 <;> exact Finset.sum_congr rfl fun i _ => mul_comm _ _
+  calc ∑ k, (fun i => Z i k) ⬝ᵥ (A *ᵥ fun i => Z i k)
+      ≤ ∑ k, (∑ j, lam j * (c k j * c k j) + lam j0 * (1 - ∑ j, c k j * c k j)) :=
+        Finset.sum_le_sum fun k _ => hbound k
+    _ = ∑ j, (lam j * m j + lam j0 * (1 - m j)) := by
+        simp only [hm, Finset.sum_add_distrib, Finset.mul_sum, mul_sub, Finset.sum_sub_distrib, mul_one]
+        rw [Finset.sum_comm]
+        congr 2
+        rw [Finset.sum_comm]
+    _ ≤ ∑ j, (lam j * m j + lam j * (1 - m j)) := by
+        refine Finset.sum_le_sum fun j _ => ?_
+        have := mul_le_mul_of_nonneg_right (hj0 j (Finset.mem_univ j)) (sub_nonneg.2 (hm1 j))
+        linarith
+    _ = ∑ j, lam j := Finset.sum_congr rfl fun j _ => by ring
+
 end TapkeeVerif.Spectral
